@@ -515,6 +515,40 @@ func (e *env) directed(rng *rand.Rand) {
 		e.r.Count("directed_conditions", 1)
 		e.r.Distinct("directed_classes", "session-ended-mid-request:"+meth)
 	}
+	// ... and the same with nothing left to send: the completing PUT has read all there is when the session is ended
+	// under it (by the client's own DELETE, or by a second, identical PUT that completes first) - no more data arrives,
+	// the handler goes straight on to store a blob for a session that is gone
+	for _, how := range []string{"delete", "twin-put"} {
+		ns := vh.Do(e.srv, vh.Req{Method: "POST", URL: "/v2/r/blobs/uploads/"})
+		l := ns.H.Get("Location")
+		if ns.Status != 202 || l == "" {
+			continue
+		}
+		pth := strings.SplitN(l, "?", 2)[0]
+		part1 := bytes.Repeat([]byte(how[:1]), 2500+e.idx%7)
+		ps := vh.Do(e.srv, vh.Req{Method: "PATCH", URL: l, Body: part1})
+		l2 := ps.H.Get("Location")
+		if ps.Status != 202 || l2 == "" {
+			continue
+		}
+		u2 := l2 + "&digest=" + vh.DigestOf("sha256", part1)
+		pr, pw := io.Pipe()
+		done := make(chan vh.Resp, 1)
+		go func() { done <- vh.DoStream(e.srv, "PUT", u2, nil, pr) }()
+		time.Sleep(3 * time.Millisecond) // the handler is waiting for the body (or will be: both orders are legal histories)
+		var other vh.Resp
+		if how == "delete" {
+			other = vh.Do(e.srv, vh.Req{Method: "DELETE", URL: pth})
+		} else {
+			other = vh.Do(e.srv, vh.Req{Method: "PUT", URL: u2})
+			e.observe(vh.Req{Method: "PUT", URL: u2}, other, "", "directed:session-ended-before-completion")
+		}
+		_ = pw.Close()
+		rs := <-done
+		e.observe(vh.Req{Method: "PUT", URL: u2, UnknownLen: true}, rs, "", "directed:session-ended-before-completion")
+		e.r.Count("directed_conditions", 1)
+		e.r.Distinct("directed_classes", "session-ended-before-completion:"+how)
+	}
 	for _, c := range cases {
 		if c.only != any && c.only != e.kind {
 			continue
